@@ -226,3 +226,16 @@ Proof.
     pose proof (interval_facts m2 e2 c ltac:(lia)) as HF. rewrite EI in HF.
     rewrite (in_interval_same_val _ A B D N E k g) by (try apply HF; exact P6). exact Hin.
 Qed.
+
+(* ------------------------------------------------------------------ the writer on a bit pattern, with the digit range as a checked condition *)
+(* every string GEOS_printDouble's model emits is a token of the number language (digits in range: evaluated by the tie on every double) *)
+Theorem print_trimmed_number_token : forall bits prec, 0 <= prec -> digits_ok bits = true -> number_token (print_trimmed bits prec).
+Proof.
+  intros bits prec Hp Hok. unfold print_trimmed, digits_ok in *.
+  destruct (decode bits) as [s | s | s | s m2 e2 c] eqn:Hd;
+    [exact (special_number_token (DZero s)) | exact (special_number_token (DInf s)) | exact (special_number_token (DNaN s)) |].
+  cbn [shortest_of]. destruct (shortest m2 e2 c) as [k g].
+  apply andb_prop in Hok. destruct Hok as [Hok H4]. apply andb_prop in Hok. destruct Hok as [Hok H3]. apply andb_prop in Hok. destruct Hok as [H1 H2].
+  apply Z.leb_le in H1. apply Z.ltb_lt in H2. apply Z.leb_le in H3. apply Z.leb_le in H4.
+  apply trimmed_number_token; [split; assumption | assumption | lia].
+Qed.
